@@ -147,6 +147,11 @@ func Known(id string, cond bool)  {}
 func Unwind(n int)                {}
 func MapOrderAll()                {}
 
+// Stub redirects calls of the named function (e.g. "time.Since") to f for the rest of the
+// path. Engine only: natively there is nothing to hook, so harnesses that use it are
+// confirmed by concrete re-execution inside the engine, not by native replay.
+func Stub(name string, f any) {}
+
 // Concrete pins a symbolic int to each feasible value in [lo,hi] (engine: forks).
 func Concrete(v int, lo, hi int) int { Assume(lo <= v && v <= hi); return v }
 
